@@ -93,6 +93,9 @@ class MATCHLinear(nn.Linear, MATCHModule):
                 self.b_quantizer.dequantize = False
                 int_bias = self.b_quantizer(linear.bias, self.s_x, self.s_w)
                 int_bias = cast(torch.Tensor, int_bias)
+            else:
+                # bias-free layer: behaves as a layer with an all-zero integer bias
+                int_bias = torch.zeros(self.out_features, device=self.device)
 
         self.scale, self.shift = self._integer_approximation(self.s_w, self.s_x, self.s_y,
                                                              int_bias)
@@ -102,7 +105,7 @@ class MATCHLinear(nn.Linear, MATCHModule):
                     int_bias = int_bias * self.scale
                 self.add_bias = int_bias.view(1, self.out_features)
             else:
-                self.add_bias = None
+                self.add_bias = torch.zeros(1, self.out_features, device=self.device)
 
         # Done here to avoid the reshape op in fwd
         self.scale = self.scale.view(1, self.out_features)
